@@ -30,6 +30,11 @@
 (*   RemoveCancels remove_request cancels the request's timer              *)
 (*   SharedGen     the search commands draw tickets from the search        *)
 (*                 manager's generator                                     *)
+(*   EmitBeforeClose  _on_peer_search_reply looks the request up and       *)
+(*                 reports the result in one stretch, before it awaits     *)
+(*                 connection.disconnect (TRUE = the code as found; FALSE  *)
+(*                 = look up, await the disconnect, then report: a         *)
+(*                 check-then-act race kept as a named deviation)          *)
 (***************************************************************************)
 EXTENDS Integers, Sequences, FiniteSets, TLC
 
@@ -44,7 +49,8 @@ CONSTANTS
   DefaultIval,   \* DEFAULT_WISHLIST_INTERVAL
   EnvOps,        \* which stimuli the environment uses in this configuration
   MaxOps, MaxTime, MaxTasks, MaxTicket,
-  UnsetGuard, RemoveCancels, SharedGen
+  MaxHeld,       \* replies that arrive on a connection whose close takes a while (in flight at most)
+  UnsetGuard, RemoveCancels, SharedGen, EmitBeforeClose
 
 VARIABLES
   now,
@@ -58,6 +64,9 @@ VARIABLES
   ticket,    \* e -> ticket of the request (0: none)
   armed,     \* e -> a deadline is pending for e according to the calls made so far
   adl,       \* e -> that deadline
+  hs,        \* replies whose handler does not finish at once: sequence of [tk, n, cont, open] -
+             \* ticket, results reported for it, the request that was live under tk when the reply
+             \* arrived and has stayed live since (0: none), handler still running
   \* ---- code level
   requests,  \* SearchManager.requests as a set of <<ticket, e>> (a dict: one pair per ticket)
   gen,       \* the two ticket counters [mgr |-> n, cli |-> n]
@@ -66,6 +75,7 @@ VARIABLES
   task,      \* sequence of runner tasks [e, st, mc, dl]
   ready,     \* the loop's ready queue: sequence of [k, t]
   wl,        \* the wishlist BackgroundTask [st, due]
+  hc,        \* per held reply: the handler coroutine [pc, q] (q: the request object it looked up)
   nops,      \* stimuli used
   \* ---- history (what the last step did)
   op,        \* the stimulus of the last step [k, e, a]; k = "none" for an internal step
@@ -74,15 +84,15 @@ VARIABLES
   errs,      \* exceptions that reached the loop exception handler so far
   q          \* the loop is quiescent (nothing but the driver is ready, nothing is due)
 
-abst    == <<kind, status, ticket, armed, adl>>
+abst    == <<kind, status, ticket, armed, adl, hs>>
 conf    == <<rt, wt>>
-micro   == <<requests, gen, tmo, handle, task, ready, wl, nops>>
+micro   == <<requests, gen, tmo, handle, task, ready, wl, hc, nops>>
 hist    == <<op, out, ran, errs, q>>
-vars    == <<now, rt, wt, srvIval, kind, status, ticket, armed, adl,
-             requests, gen, tmo, handle, task, ready, wl, nops, op, out, ran, errs, q>>
+vars    == <<now, rt, wt, srvIval, kind, status, ticket, armed, adl, hs,
+             requests, gen, tmo, handle, task, ready, wl, hc, nops, op, out, ran, errs, q>>
 \* history variables carry nothing the next step depends on
-view    == <<now, rt, wt, srvIval, kind, status, ticket, armed, adl,
-             requests, gen, tmo, handle, task, ready, wl, nops, errs>>
+view    == <<now, rt, wt, srvIval, kind, status, ticket, armed, adl, hs,
+             requests, gen, tmo, handle, task, ready, wl, hc, nops, errs>>
 
 WishTimeouts == IF WishServer THEN WishFixed \cup {-1} ELSE WishFixed
 
@@ -116,15 +126,36 @@ A_Create(K, S, e, k, tk, T) ==
    status |-> [K.status EXCEPT ![e] = "live"],
    ticket |-> [K.ticket EXCEPT ![e] = tk],
    armed  |-> [K.armed EXCEPT ![e] = (T > 0)],
-   adl    |-> [K.adl EXCEPT ![e] = IF T > 0 THEN S + T ELSE 0]]
+   adl    |-> [K.adl EXCEPT ![e] = IF T > 0 THEN S + T ELSE 0],
+   hs     |-> K.hs]
 
-Abs == [kind |-> kind, status |-> status, ticket |-> ticket, armed |-> armed, adl |-> adl]
+Abs == [kind |-> kind, status |-> status, ticket |-> ticket, armed |-> armed, adl |-> adl, hs |-> hs]
 
 SetAbs(K) ==
   /\ kind' = K.kind /\ status' = K.status /\ ticket' = K.ticket /\ armed' = K.armed /\ adl' = K.adl
+  /\ hs' = K.hs
 
-A_Remove(K, e) == [K EXCEPT !.status[e] = "manual", !.armed[e] = FALSE]
-A_Expire(K, e) == [K EXCEPT !.status[e] = "expired", !.armed[e] = FALSE]
+\* a reply in flight stops being entitled to a result once the request it was for is gone
+ClearCont(HS, e) == [h \in 1..Len(HS) |-> IF HS[h].cont = e THEN [HS[h] EXCEPT !.cont = 0] ELSE HS[h]]
+
+A_Remove(K, e) == [K EXCEPT !.status[e] = "manual", !.armed[e] = FALSE, !.hs = ClearCont(K.hs, e)]
+A_Expire(K, e) == [K EXCEPT !.status[e] = "expired", !.armed[e] = FALSE, !.hs = ClearCont(K.hs, e)]
+
+\* replies whose handling takes a while (the connection they came on is slow to close)
+LiveUnder(K, tk) == {e \in Ents : IsReqKind(K.kind[e]) /\ K.status[e] = "live" /\ K.ticket[e] = tk}
+A_ReplyIn(K, tk) ==
+  [K EXCEPT !.hs = Append(K.hs, [tk |-> tk, n |-> 0, open |-> TRUE,
+                                 cont |-> IF LiveUnder(K, tk) = {} THEN 0 ELSE CHOOSE e \in LiveUnder(K, tk) : TRUE])]
+A_CreditH(K, h) == [K EXCEPT !.hs[h].n = @ + 1]
+\* a result event for e seen from outside: it answers one of the replies in flight with e's ticket
+Creditable(K, e) == {h \in 1..Len(K.hs) : K.hs[h].open /\ K.hs[h].tk = K.ticket[e] /\ K.hs[h].n = 0}
+A_Credit(K, e) ==
+  LET c == Creditable(K, e)
+      pref == {h \in c : K.hs[h].cont = e}
+      pick == IF pref # {} THEN CHOOSE h \in pref : \A x \in pref : h <= x
+                           ELSE CHOOSE h \in c : \A x \in c : h <= x IN
+  IF c = {} THEN K ELSE A_CreditH(K, pick)
+A_ReplyDone(K, h) == [K EXCEPT !.hs[h].open = FALSE]
 A_Fire(K, e)   == [K EXCEPT !.armed[e] = FALSE]
 A_Arm(K, S, e, T) == [K EXCEPT !.armed[e] = TRUE, !.adl[e] = S + T]
 A_Disarm(K, e) == [K EXCEPT !.armed[e] = FALSE]
@@ -203,6 +234,7 @@ Init ==
   /\ ticket = [e \in Ents |-> 0]
   /\ armed = [e \in Ents |-> FALSE]
   /\ adl = [e \in Ents |-> 0]
+  /\ hs = <<>> /\ hc = <<>>
   /\ requests = {}
   /\ gen = [mgr |-> 1, cli |-> 1]        \* utils.ticket_generator(initial=1): both start at 1
   /\ tmo = [e \in Ents |-> 0]
@@ -219,7 +251,7 @@ Init ==
 
 EnvTurn(o) == ready # <<>> /\ Head(ready) = ENV /\ nops < MaxOps /\ o \in EnvOps
 Stim(o) == /\ op' = o /\ ran' = 0 /\ errs' = errs /\ nops' = nops + 1 /\ q' = (ready' = <<ENV>>)
-           /\ UNCHANGED <<now, rt, wt>>
+           /\ UNCHANGED <<now, rt, wt, hc>>
 
 \* SearchManager.search / search_room / search_user
 Search ==
@@ -268,7 +300,29 @@ Reply(tk) ==
   /\ ready # <<>> /\ Head(ready) = ENV /\ "reply" \in EnvOps
   /\ out' = IF HasKey(requests, tk) THEN <<Ev("result", Get(requests, tk))>> ELSE <<>>
   /\ op' = Op("reply", 0, tk) /\ ran' = 0 /\ q' = q
-  /\ UNCHANGED <<now, rt, wt, srvIval, abst, requests, gen, tmo, handle, task, ready, wl, nops, errs>>
+  /\ UNCHANGED <<now, rt, wt, srvIval, abst, requests, gen, tmo, handle, task, ready, wl, hc, nops, errs>>
+
+\* A PeerSearchReply arrives on a connection whose close takes a while: the handler task
+\* (the connection's reader dispatching the message) is created now, runs up to
+\* `await connection.disconnect()` when it gets its slot, and stays there until the close completes.
+ReplyHeld(tk) ==
+  /\ EnvTurn("rheld") /\ Len(hs) < MaxHeld
+  /\ SetAbs(A_ReplyIn(Abs, tk))
+  /\ hc' = Append(hc, [pc |-> "new", q |-> 0])
+  /\ ready' = Append(ready, H("rin", Len(hs) + 1))
+  /\ out' = <<>>
+  /\ op' = Op("rheld", Len(hs) + 1, tk) /\ ran' = 0 /\ errs' = errs /\ nops' = nops + 1 /\ q' = FALSE
+  /\ UNCHANGED <<now, rt, wt, srvIval, requests, gen, tmo, handle, task, wl>>
+
+\* the close of that connection completes: the handler is woken up
+ReplyRelease(h) ==
+  /\ ready # <<>> /\ Head(ready) = ENV /\ "rheld" \in EnvOps
+  /\ h <= Len(hc) /\ hc[h].pc = "closing"
+  /\ hc' = [hc EXCEPT ![h].pc = "released"]
+  /\ ready' = Append(ready, H("rres", h))
+  /\ out' = <<>>
+  /\ op' = Op("rrelease", h, 0) /\ ran' = 0 /\ errs' = errs /\ q' = FALSE
+  /\ UNCHANGED <<now, rt, wt, srvIval, abst, requests, gen, tmo, handle, task, wl, nops>>
 
 \* ---- a Timer driven directly
 TNew(d) ==
@@ -313,7 +367,7 @@ Yield ==
   /\ ready # <<>> /\ Head(ready) = ENV /\ Len(ready) > 1
   /\ ready' = Append(Tail(ready), ENV)
   /\ op' = Op("yield", 0, 0) /\ out' = <<>> /\ ran' = 0 /\ q' = FALSE
-  /\ UNCHANGED <<now, rt, wt, srvIval, abst, requests, gen, tmo, handle, task, wl, nops, errs>>
+  /\ UNCHANGED <<now, rt, wt, srvIval, abst, requests, gen, tmo, handle, task, wl, hc, nops, errs>>
 
 \* Nothing else is ready: the clock moves one tick; every timer that is now due is appended to
 \* the ready queue behind the driver (BaseEventLoop._run_once), in heap order (any order here).
@@ -328,12 +382,13 @@ Advance ==
        /\ q' = (order = <<>>)
   /\ now' = now + 1
   /\ op' = Op("advance", 0, 0) /\ out' = <<>> /\ ran' = 0
-  /\ UNCHANGED <<rt, wt, srvIval, abst, requests, gen, tmo, handle, task, wl, nops, errs>>
+  /\ UNCHANGED <<rt, wt, srvIval, abst, requests, gen, tmo, handle, task, wl, hc, nops, errs>>
 
 ----------------------------------------------------------------------------
 \* Internal steps: the loop runs the handle at the head of the ready queue.
 
-Internal == op' = Op("none", 0, 0) /\ q' = (ready' = <<ENV>>) /\ UNCHANGED <<now, rt, wt, srvIval, nops, gen, tmo>>
+InternalH == op' = Op("none", 0, 0) /\ q' = (ready' = <<ENV>>) /\ UNCHANGED <<now, rt, wt, srvIval, nops, gen, tmo>>
+Internal == InternalH /\ UNCHANGED hc
 
 \* first step of Timer.runner: asyncio.sleep(self.timeout) registers the deadline
 RunFirst(t) ==
@@ -389,6 +444,32 @@ RunUnset(t) ==
   /\ out' = <<>> /\ ran' = 0 /\ errs' = errs
   /\ Internal /\ UNCHANGED <<abst, requests, task, wl>>
 
+\* _on_peer_search_reply (manager.py:380-403) up to `await connection.disconnect(...)`
+RunReplyArrive(h) ==
+  /\ h <= Len(hc) /\ ready # <<>> /\ Head(ready) = H("rin", h) /\ hc[h].pc = "new"
+  /\ LET tk == hs[h].tk
+         present == HasKey(requests, tk) IN
+       IF EmitBeforeClose
+         THEN /\ out' = IF present THEN <<Ev("result", Get(requests, tk))>> ELSE <<>>
+              /\ SetAbs(IF present THEN A_CreditH(Abs, h) ELSE Abs)
+              /\ hc' = [hc EXCEPT ![h].pc = "closing"]
+         ELSE /\ out' = <<>> /\ UNCHANGED abst
+              /\ hc' = [hc EXCEPT ![h] = [pc |-> "closing", q |-> IF present THEN Get(requests, tk) ELSE 0]]
+  /\ ready' = Tail(ready)
+  /\ ran' = 0 /\ errs' = errs
+  /\ InternalH /\ UNCHANGED <<requests, handle, task, wl>>
+
+\* ... and from there to its end
+RunReplyResume(h) ==
+  /\ h <= Len(hc) /\ ready # <<>> /\ Head(ready) = H("rres", h) /\ hc[h].pc = "released"
+  /\ IF EmitBeforeClose \/ hc[h].q = 0
+       THEN out' = <<>> /\ SetAbs(A_ReplyDone(Abs, h))
+       ELSE out' = <<Ev("result", hc[h].q)>> /\ SetAbs(A_ReplyDone(A_CreditH(Abs, h), h))
+  /\ hc' = [hc EXCEPT ![h].pc = "done"]
+  /\ ready' = Tail(ready)
+  /\ ran' = 0 /\ errs' = errs
+  /\ InternalH /\ UNCHANGED <<requests, handle, task, wl>>
+
 \* the wishlist BackgroundTask runs _wishlist_job (manager.py:270-303), then sleeps the interval
 RunWishlist ==
   /\ ready # <<>> /\ Head(ready) = H("wl", 0) /\ wl.st \in {"new", "woken"}
@@ -399,7 +480,7 @@ RunWishlist ==
        /\ gen' = C.gen /\ tmo' = C.tmo
   /\ wl' = [st |-> "sleep", due |-> now + srvIval]
   /\ ran' = 0 /\ errs' = errs
-  /\ op' = Op("none", 0, 0) /\ q' = (ready' = <<ENV>>) /\ UNCHANGED <<now, rt, wt, srvIval, nops>>
+  /\ op' = Op("none", 0, 0) /\ q' = (ready' = <<ENV>>) /\ UNCHANGED <<now, rt, wt, srvIval, nops, hc>>
 
 RunWlDue ==
   /\ ready # <<>> /\ Head(ready) = H("wldue", 0)
@@ -413,6 +494,10 @@ Next ==
   \/ \E i \in Intervals : WlMsg(i)
   \/ \E e \in Ents : Remove(e)
   \/ \E tk \in 1..MaxTicket : Reply(tk)
+  \/ \E tk \in 1..MaxTicket : ReplyHeld(tk)
+  \/ \E h \in 1..MaxHeld : ReplyRelease(h)
+  \/ \E h \in 1..MaxHeld : RunReplyArrive(h)
+  \/ \E h \in 1..MaxHeld : RunReplyResume(h)
   \/ \E d \in Delays : TNew(d)
   \/ \E e \in Ents : TStart(e)
   \/ \E e \in Ents : TCancel(e)
@@ -436,14 +521,31 @@ Spec == Init /\ [][Next]_vars
 TypeOK ==
   /\ \A e \in Ents : kind[e] \in {"none", "mgr", "cmd", "wish", "bare"}
                      /\ status[e] \in {"unused", "live", "manual", "expired"}
-  /\ \A i \in 1..Len(ready) : ready[i].k \in {"env", "step", "due", "cb", "wl", "wldue"}
+  /\ \A i \in 1..Len(ready) : ready[i].k \in {"env", "step", "due", "cb", "wl", "wldue", "rin", "rres"}
+  /\ Len(hs) = Len(hc)
   /\ \A t \in 1..Len(task) : task[t].st \in {"new", "sleep", "woken", "done"}
 
 \* A search result is reported for a request iff the request is still registered and the
-\* result carries its ticket (once per reply).
+\* result carries its ticket.  For a reply handled at once: exactly one event for the live
+\* request with that ticket, none otherwise.  For a reply whose handling takes a while (hs):
+\* every result event is for a request that is live at that moment and answers one reply in
+\* flight with its ticket, which gets at most one; and a reply whose request was live from its
+\* arrival to the end of its handling has got its event by then.
+ResultsFor(tk) == Cardinality({i \in 1..Len(out') : out'[i].ev = "result" /\ ticket[out'[i].e] = tk})
+Before(h) == IF h <= Len(hs) THEN hs[h].n ELSE 0
+Credits(tk) == Cardinality({h \in 1..Len(hs') : hs'[h].tk = tk /\ hs'[h].n > Before(h)})
+               - Cardinality({h \in 1..Len(hs') : hs'[h].tk = tk /\ hs'[h].n < Before(h)})
 ResultIffLiveA ==
-  \A e \in Ents : CountOf(out', Ev("result", e)) =
-      IF op'.k = "reply" /\ IsReq(e) /\ status[e] = "live" /\ ticket[e] = op'.a THEN 1 ELSE 0
+  IF op'.k = "reply"
+    THEN /\ hs' = hs
+         /\ \A e \in Ents : CountOf(out', Ev("result", e)) =
+              IF IsReq(e) /\ status[e] = "live" /\ ticket[e] = op'.a THEN 1 ELSE 0
+    ELSE /\ \A e \in Ents : Has(out', Ev("result", e)) =>
+              CountOf(out', Ev("result", e)) = 1 /\ IsReq(e) /\ status[e] = "live"
+         /\ \A tk \in {ticket[out'[i].e] : i \in {j \in 1..Len(out') : out'[j].ev = "result"}}
+                    \cup {hs'[h].tk : h \in 1..Len(hs')} : ResultsFor(tk) = Credits(tk)
+         /\ \A h \in 1..Len(hs') : hs'[h].n <= 1
+         /\ \A h \in 1..Len(hs) : (hs[h].open /\ ~hs'[h].open /\ hs[h].cont # 0) => hs'[h].n = 1
 ResultIffLive == [][ResultIffLiveA]_vars
 
 \* Live requests always have distinct tickets.
